@@ -7,6 +7,9 @@ Flags (Gen.Consts, regenerated from VERIF_REPO, asked from the model through c06
 nt_fixed_tok, nt_fixed_dlt, nt_tok_end_at_hash, nt_uri_unclosed_to_eol.  With nt_tok_end_at_hash
 no root cause is excused any more: every valid line of the stream must be read right.  With
 nt_uri_unclosed_to_eol no real call may run into the alarm, whatever the line holds.
+nt_skips_comment_lines (finding C06-F9 until it holds): documents are lists of statement lines,
+comment lines and blank lines (Spec.NtSyntax.dline), read from a raw string and from a file; the
+oracle is the list of the statements' triples, zero error lines (C06_document_lines).
 Correspondence: bounded-exhaustive, Model.NtReader vs shexer's NtTriplesYielder on
 every line rendered from (lexical form over the adversarial alphabet) x suffix
 forms x separator layouts x blank/no blank before the dot x comment variants x
